@@ -1987,6 +1987,9 @@ pub (crate) fn bid128_ext_fma(
                             R64 = 10;
                         }
                     }
+                    // tininess is decided on z's exponent as it is here: the decrement below yields 99...9 * 10^(e3-1),
+                    // which is not tiny when e3 - 1 = emin
+                    let z_at_emin: bool = e3 == EXP_MIN_UNBIASED;
                     if R64 == 5
                     && !is_inexact_lt_midpoint && !is_inexact_gt_midpoint
                     && !is_midpoint_lt_even    && !is_midpoint_gt_even {
@@ -2018,7 +2021,7 @@ pub (crate) fn bid128_ext_fma(
                         e3       -= 1;
                         res.w[1] |= z_sign | (((e3 + 6176) as BID_UINT64) << 49);
                     }
-                    if e3 == EXP_MIN_UNBIASED {
+                    if z_at_emin {
                         #[cfg(feature = "decimal_tiny_detection_after_rounding")]
                         if R64 < 5 || (R64 == 5 && !is_inexact_lt_midpoint) {
                             // result not tiny (in round-to-nearest mode)
